@@ -303,6 +303,40 @@ def handleRaw (args : List String) : String :=
       | .error e => showRawErr e
     | _, _ => "bad-request"
 
+/-- `C11.frag`: one text through `preprocess_fragment`.  The request carries the token stream of the text only;
+    the defines come from the source (`Gen.fragmentDefines`), spelled `name value` with a name and a decimal value -/
+def handleFrag (args : List String) : String :=
+  match args.dropWhile (· ≠ "@toks") with
+  | [_, f] =>
+    if !f.startsWith "F " then "bad-request" else
+    if (f.splitOn " E").any (fun line =>
+        let ws := (line.splitOn " ").filter (fun w => w ≠ "" ∧ w ≠ "w")
+        ws.contains "##" && (match ws.dropWhile (fun w => w ≠ "p#") with
+          | _ :: "idefine" :: _ => true
+          | _ => false)) then "unsupported: ## in a macro body belongs to C12" else
+    let simple (s : String) : Bool := !s.isEmpty && s.toList.all (fun c => c.isAlphanum || c == '_')
+    if !(RsslVerif.Gen.CondTables.fragmentDefines.all fun d => simple d.1 && !d.2.isEmpty && d.2.toList.all Char.isDigit) then
+      "unsupported: a fragment define that is not `name decimal`" else
+    let api : Option (List RsslVerif.Model.CondFile.ApiDef) :=
+      sequenceOpt (RsslVerif.Gen.CondTables.fragmentDefines.map fun d =>
+        match rawToks ("i" ++ d.1 ++ " w n" ++ d.2) with
+        | none => none
+        | some items => some (some (items.filterMap fun i => match i with | .tok t => some t | .lexError => none)))
+    match (f.drop 2).toString.splitOn " ", api with
+    | name :: toks, some api =>
+      match rawToks (" ".intercalate toks) with
+      | none => "bad-request"
+      | some items =>
+        match RsslVerif.Model.CondFile.preprocessFragment items api name with
+        | .ok out =>
+          -- what `prepare_tokens` hands to the parser must be what the observation shows
+          let prepared := RsslVerif.Model.CondFile.prepareTokens out
+          if prepared.length ≠ ((rawLines out).map List.length).sum + 1 then "unsupported: prepareTokens and rawLines disagree"
+          else "ok " ++ "|".intercalate ((rawLines out).map (fun l => " ".intercalate l))
+        | .error e => showRawErr e
+    | _, _ => "bad-request"
+  | _ => "bad-request"
+
 /-- the optional last field is the whitespace/comment style the harness renders the lines with; the
     model works on tokens and ignores it -/
 def handle (op : String) (args : List String) : String :=
@@ -311,6 +345,7 @@ def handle (op : String) (args : List String) : String :=
   | "C11.run", [a, _] => handleCore op [a]
   | "C11.cond", [a, b, _] => handleCore op [a, b]
   | "C11.raw", _ => handleRaw args
+  | "C11.frag", _ => handleFrag args
   | _, _ => handleCore op args
 
 end RsslVerif.Driver.C11
